@@ -19,9 +19,9 @@ Lemma simp_total_cvalid FI M f : cvalid FI M (simp_classic_total fuel f) <-> cva
 Proof. unfold cvalid. split; intros H e; apply (simp_classic_total_sound fuel f FI M e), H. Qed.
 
 (* role stability for the components of the full model (tau_star_total is [] where tau* panics) *)
-Lemma simp_total_roles ins outs p m D :
+Lemma simp_total_roles ins outs occ p m D :
   completion (rp_theory m (tau_star_total p)) ins = Some D ->
-  forall f, In f (D ++ missing_output_definitions outs D) -> head_predicate (simp_classic_total fuel f) = head_predicate f.
+  forall f, In f (D ++ missing_output_definitions outs occ D) -> head_predicate (simp_classic_total fuel f) = head_predicate f.
 Proof.
   intros HD f Hf. apply simp_classic_total_head. apply in_app_or in Hf. destruct Hf as [Hf|Hf].
   - unfold tau_star_total in HD. destruct (TauStar.tau_star p) as [G|] eqn:HG.
